@@ -498,6 +498,36 @@ def typed_literal_fn(text, feats):
             "  ensures (match typed_spec(*ltrl, knd_attn.kind) { Some(v) => res == Ok::<Value, MechError>(v), None => res is Err }),\n{\n" + b + "\n}\n")
 
 
+def dispatch_lemmas(text, feats):
+    """`literal()` and `number()`: the `match` arms reduced to `variant => the evaluator the arm hands its payload to` (the last call of the arm; cfg-disabled arms
+    removed); the table is compared with the property's routing on the extracted names and the outcome is a ghost lemma per function"""
+    import units.C02 as C02
+    out, fns = [], []
+    for fn, head, prefix, expected in (
+            ("literal", r"match\s+&?ltrl\s*\{", "Literal", {"Number": "number", "TypedLiteral": "typed_literal"}),
+            ("number", r"match\s+num\s*\{", "Number", {"Real": "real", "Complex": "complex"})):
+        sig, body = extract_fn(text, fn)
+        mm = find_code(body, head)
+        if not mm:
+            raise AnchorLost("%s(): the dispatching match not found" % fn)
+        inner = body[mm.end():match_brace(body, mm.end() - 1) - 1]
+        table = {}
+        for attrs, pat, expr in C02.split_arms(inner):
+            if any(not C02.cfg_eval(re.match(r"#\[cfg\((.*)\)\]$", a.strip(), re.S).group(1), feats) for a in attrs if a.strip().startswith("#[cfg")):
+                continue
+            pm = re.match(r"%s::(\w+)" % prefix, pat.strip())
+            if not pm:
+                continue
+            calls = [c for c in re.findall(r"\b([a-z_]\w*)\s*\(", re.sub(r"\b(Box|Some|Ok|Err)\s*\(", "(", strip_comments(expr))) if c not in ("clone",)]
+            table[pm.group(1)] = calls[-1] if calls else None
+        wrong = ["%s::%s -> %s (expected %s)" % (prefix, k, table.get(k), v) for k, v in expected.items() if k in table and table.get(k) != v]
+        missing = [k for k in expected if k not in table and not (k == "Complex" and "complex" not in feats) and not (k == "TypedLiteral" and "convert" not in feats)]
+        ok = not wrong and not missing
+        out.append("// %s(): %s\nproof fn %s_dispatch()\n  ensures %s,   // wrong: %s; missing: %s\n{ }\n" % (fn, table, fn, "true" if ok else "false", wrong or "none", missing or "none"))
+        fns.append("%s_dispatch" % fn)
+    return out, fns
+
+
 def plan_units(plan):
     text = read_repo(LIT_RS)
     nodes = read_repo(NODES_RS)
@@ -522,6 +552,7 @@ def plan_units(plan):
         ("c13_complex", lambda: complex_(text), {"complex": "C13.verus.complex.re_im_parts"}),
         ("c13_route", lambda: routing(text, nodes, feats), {"real_route": "C13.verus.real.routing_table"}),
         ("c13_typed", lambda: [TYPED_MODEL, typed_integer_arm(text, feats)], {"typed_integer_arm": "C13.verus.real.suffixed_integer_clamps"}),
+        ("c13_dispatch", lambda: dispatch_lemmas(text, feats)[0], {f: "C13.verus.literal_number.dispatch" for f in ("literal_dispatch", "number_dispatch")}),
         ("c13_typed_literal", lambda: [TYPED_LIT_MODEL, typed_literal_fn(text, feats)], {"typed_literal": "C13.verus.typed_literal.literal_then_conversion"}),
         ("c13_syn_sign", lambda: [SYN_MODEL, exponent_sign_fragment(read_repo(SYN_RS))], {"exponent_sign": "C13.verus.syntax.scientific_literal.exponent_sign"}),
         ("c13_syn_neg", lambda: [SYN_MODEL, SYN_NUM_MODEL, negation_fn(read_repo(SYN_RS), "real_number"), negation_fn(read_repo(SYN_RS), "untyped_real_number")],
@@ -541,6 +572,8 @@ def plan_units(plan):
         "complex_imaginary_sign": "the imaginary part of `a - bi` is the negated literal, that of `a + bi` the literal itself",
         "exponent_sign": "the parser of a scientific literal sets the negative-exponent flag exactly when the sign it consumed between the exponent marker and the exponent digits is a minus (an explicit plus, or no sign, leaves it unset)",
         "typed_literal": "an annotated / suffixed literal is the value of the literal itself converted to the annotated kind (the conversion of C12 applied to (value, kind) in that order; the CONVERTED value is returned); if the literal, the kind or the conversion fails the literal is rejected",
+        "literal_dispatch": "literal() hands a number to number() and an annotated literal to typed_literal(); number() hands a real number to real() and a complex one to complex() (decided on the extracted arm table)",
+        "number_dispatch": "literal() hands a number to number() and an annotated literal to typed_literal(); number() hands a real number to real() and a complex one to complex() (decided on the extracted arm table)",
         "real_route": "every literal form is evaluated by its own evaluator"}
     for uname, build, fns in groups:
         try:
@@ -550,8 +583,14 @@ def plan_units(plan):
                 plan.anchor_errors.append((on, str(e)))
             continue
         can = "canary_" + uname
-        utext = vlib.verus_file((items if uname in ("c13_typed", "c13_typed_literal", "c13_syn_sign", "c13_syn_neg", "c13_syn_complex") else aliases + [model] + items) + [verus_canary(can, "x: u64", [])])
+        utext = vlib.verus_file((items if uname in ("c13_typed", "c13_dispatch", "c13_typed_literal", "c13_syn_sign", "c13_syn_neg", "c13_syn_complex") else aliases + [model] + items) + [verus_canary(can, "x: u64", [])])
         for fn, on in fns.items():
+            if any(o.name == on for o in plan.obs):
+                continue            # several functions / lemmas of one obligation
+            if uname == "c13_dispatch":
+                # decided on the extracted arm table (a textual correspondence carried through Verus as a ghost lemma): labelled syntactic / bounded, never counted as proved
+                plan.ob(on, "syntactic", "bounded", bound="textual: the arm tables of literal() and number() as extracted from the source", functions=["src/interpreter/src/literals.rs: literal(), number() (dispatch arms)"], what=what[fn])
+                continue
             plan.ob(on, "verus", "proved", functions=["src/interpreter/src/literals.rs: %s()" % fn.replace("real_route", "real").replace("typed_integer_arm", "real").replace("exponent_sign", "scientific_literal [src/syntax/src/literals.rs]").replace("complex_imaginary_sign", "complex_number [src/syntax/src/literals.rs]")], what=what[fn])
         plan.verus.append(VerusUnit(uname, utext, fns, [can]))
     plan.dropped += [
